@@ -58,7 +58,7 @@ func c16Encoders(c *run.C) {
 	}
 	W := w0.Writes
 	c.ObserveMax("max_writes_per_stream", W)
-	for k := 1; k <= W; k++ {
+	for _, k := range faultPositions(c, W) {
 		for _, cont := range []bool{false, true} {
 			fw := &mon.FailingWriter{K: k}
 			v := cd.NewVisitor(fw, o)
@@ -168,7 +168,7 @@ func c16Parsers(c *run.C) {
 	}
 	E := m0.NEvents
 	c.ObserveMax("max_events_per_doc", E)
-	for k := 1; k <= E; k++ {
+	for _, k := range faultPositions(c, E) {
 		for entry := 0; entry < 5; entry++ {
 			m := mon.NewMonitor()
 			m.Fail, m.FailErr = k, mon.ErrVisitor
@@ -265,7 +265,7 @@ func c16Adapters(c *run.C) {
 		return
 	}
 	E := m0.NEvents
-	for k := 1; k <= E; k++ {
+	for _, k := range faultPositions(c, E) {
 		m := mon.NewMonitor()
 		m.Fail, m.FailErr = k, mon.ErrVisitor
 		var err error
@@ -352,7 +352,7 @@ func c16Fold(c *run.C) {
 		return
 	}
 	c.ObserveMax("max_events_per_fold", E)
-	for k := 1; k <= E; k++ {
+	for _, k := range faultPositions(c, E) {
 		m := mon.NewMonitor()
 		m.Fail, m.FailErr = k, mon.ErrVisitor
 		var sink structform.Visitor = m
@@ -388,4 +388,48 @@ func c16Fold(c *run.C) {
 func init() {
 	chk := run.Lookup("C16")
 	chk.Suites = append(chk.Suites, &run.Suite{Name: "fold", N: tierN(30000, 600000), Case: c16Fold, Require: []string{"fold_fault_runs", "fold_values"}})
+}
+
+// faultPositions enumerates the fault positions 1..n.  Up to 1500 positions
+// the enumeration is exhaustive; the rare longer runs (typed containers with
+// 2^15 / 2^16 elements) take the first and last positions, the powers of two
+// and some drawn from the case's generator, within a budget of about two
+// million writes / events per case.
+func faultPositions(c *run.C, n int) []int {
+	if n <= 1500 {
+		ks := make([]int, n)
+		for i := range ks {
+			ks[i] = i + 1
+		}
+		return ks
+	}
+	// budget: about 2 million writes / events per case in total
+	per := 2000000 / n / 3
+	if per < 8 {
+		per = 8
+	}
+	if per > 100 {
+		per = 100
+	}
+	seen := map[int]bool{}
+	var ks []int
+	add := func(k int) {
+		if k >= 1 && k <= n && !seen[k] {
+			seen[k] = true
+			ks = append(ks, k)
+		}
+	}
+	for i := 1; i <= per; i++ {
+		add(i)
+		add(n + 1 - i)
+	}
+	for p := 256; p < n; p *= 2 {
+		add(p)
+		add(p + 1)
+	}
+	for i := 0; i < per; i++ {
+		add(1 + c.R.Intn(n))
+	}
+	c.Observe("fault_runs_sampled_positions", 1)
+	return ks
 }
